@@ -365,7 +365,7 @@ def main(argv=None):
     from hl7apy.exceptions import HL7apyException
     rng = run.rng
     vs = versions()
-    nrand = 18 if not run.thorough else 110
+    nrand = 18 if not run.thorough else 240
     sg_cases = []      # (v, ec, msh1, msh2, encoding_chars dict, rest, header line)
     header_texts = []  # texts for get_message_info / get_message_type correspondence
     stats = {'api_tolerant': 0, 'api_strict': 0, 'api_default': 0, 'parsed': 0, 'setter': 0, 'descendants_read': 0,
